@@ -41,7 +41,7 @@ class Run:
     def build_all(self):
         self.tie_errors = []
         try:
-            vlib.regen_consts()
+            vlib.regen_consts(self.pid)
         except TieBroken as e:
             self.tie_errors.append(str(e))
         self.model_exe = None
